@@ -114,7 +114,14 @@ func (c18) Run(c *Ctx, i int) CaseResult {
 		return res
 	}
 	var vars []interface{}
+	nullOps := 0
 	for _, o := range opList {
+		if o == nil && batch {
+			// a null member: nothing to execute and nothing a path can lead into
+			nullOps++
+			vars = append(vars, map[string]interface{}{"\u0000null-operation": true})
+			continue
+		}
 		om, ok := o.(map[string]interface{})
 		if !ok {
 			res.Skipped = "operation-not-object"
@@ -156,6 +163,35 @@ func (c18) Run(c *Ctx, i int) CaseResult {
 	feat := map[string]bool{"batch": batch}
 	modelOK := ans["ok"] != nil && !missingFile
 	res.Nontrivial = ans["ok"] != nil
+	if nullOps > 0 {
+		// a request with a null member may be refused as a whole (4xx, nothing executed); if it is served, every
+		// member that is executed must have got exactly the variables the map gives it in the list as sent
+		feat["null-member"] = true
+		refused := rec.Code >= 400 && rec.Code <= 499 && len(capx.Seen) == 0
+		if !refused {
+			if !modelOK {
+				bad("L2.inject", fmt.Sprintf("a batch with a null member and an invalid map was served (status %d, %d operations executed)", rec.Code, len(capx.Seen)), "4xx, nothing executed")
+			} else {
+				want := map[string]int{}
+				for _, w := range ans["ok"].([]interface{}) {
+					if wm, ok := w.(map[string]interface{}); ok && wm["\u0000null-operation"] != nil {
+						continue
+					}
+					want[Canon(w)]++
+				}
+				for _, s := range capx.Seen {
+					k := Canon(markFiles(nilToEmpty(s)))
+					if want[k] == 0 {
+						bad("L2.inject", "a batch with a null member was served and an operation was executed with variables that differ from what the map gives it in the list as sent: "+diffHint(k, fmt.Sprint(keysOf(want))), ans["ok"])
+						break
+					}
+					want[k]--
+				}
+			}
+		}
+		res.Features = FeatList(feat)
+		return res
+	}
 	if modelOK {
 		feat["accepted"] = true
 		// every operation must have been executed with exactly the model's variables
@@ -231,18 +267,25 @@ var uploadOdd = []string{"variables.fs.+1", "variables.fs.01", "variables.fs.-0"
 func genUploadCase(r *rand.Rand) HTTPCase {
 	hc := HTTPCase{Method: "POST", Target: "/graphql"}
 	batch := r.Intn(3) == 0
-	mk := func() interface{} {
+	// every member of a batch carries its own mark ("s"), so that a file put into the wrong member shows
+	mk := func(k int) interface{} {
 		return map[string]interface{}{"query": `{ me { firstName } }`, "variables": map[string]interface{}{"f": nil, "g": nil, "fs": []interface{}{nil, nil},
-			"o": map[string]interface{}{"f": nil, "l": []interface{}{map[string]interface{}{"f": nil}, map[string]interface{}{"f": nil}}}, "s": "x", "n": 5,
+			"o": map[string]interface{}{"f": nil, "l": []interface{}{map[string]interface{}{"f": nil}, map[string]interface{}{"f": nil}}}, "s": fmt.Sprintf("x%d", k), "n": 5,
 			"nested": []interface{}{[]interface{}{nil}, []interface{}{nil}}}}
 	}
-	var ops interface{} = mk()
+	var ops interface{} = mk(0)
 	nops := 1
 	if batch {
 		nops = 1 + r.Intn(3)
 		l := make([]interface{}, nops)
 		for i := range l {
-			l[i] = mk()
+			l[i] = mk(i)
+		}
+		if r.Intn(6) == 0 {
+			// a JSON null where an operation belongs (the indexes of the map count the list as it was sent)
+			at := r.Intn(nops + 1)
+			l = append(l[:at], append([]interface{}{nil}, l[at:]...)...)
+			nops++
 		}
 		ops = l
 	}
